@@ -1556,6 +1556,8 @@ class Executor:
             return PyFn(table[name], 'list.' + name)
         if name in getattr(obj, 'attrs', {}):
             return obj.attrs[name]
+        if name in ('any', 'all') and obj.kind == 'ndarray':
+            return PyFn((lambda *a, **k: self.np_any(obj)) if name == 'any' else (lambda *a, **k: self.np_all(obj)), 'ndarray.' + name)
         if name in ('ravel', 'flatten') and obj.kind == 'ndarray':
             def ravel(*a, **k):
                 order = exact(a[0]) if a else exact(k.get('order', 'C'))
